@@ -85,10 +85,25 @@ class Real:
             root = T.named("root")
         self.classes = [root]
         self.insts = []
+        self.held = {}          # view label -> the view OBJECT fetched once and kept by the caller
 
-    def view(self, v):
+    def fresh_view(self, v):
         kind, n = v
         return self.classes[n].properties if kind == "c" else self.insts[n].properties
+
+    def view(self, v, hold=False):
+        """the view object a command goes through: the held one if the caller keeps one (fetched at the first
+        command marked "held"), otherwise `X.properties` fetched afresh"""
+        key = tuple(v)
+        if hold and key not in self.held:
+            self.held[key] = self.fresh_view(v)
+        return self.held[key] if key in self.held else self.fresh_view(v)
+
+    def view_objects(self, v):
+        out = [(False, self.fresh_view(v))]
+        if tuple(v) in self.held:
+            out.append((True, self.held[tuple(v)]))
+        return out
 
     def views(self):
         return [["c", i] for i in range(len(self.classes))] + [["i", i] for i in range(len(self.insts))]
@@ -107,7 +122,7 @@ class Real:
         from flatland.schema.properties import Properties
         t = cmd["t"]
         if t == "op":
-            return self._op(self.view(cmd["view"]), cmd)
+            return self._op(self.view(cmd["view"], hold=bool(cmd.get("held"))), cmd)
         if t == "subclass":
             p = self.classes[cmd["p"]]
             via = cmd.get("via", "named")
@@ -163,6 +178,8 @@ class Real:
             return None
         if t == "assign":
             self.insts[cmd["i"]].properties = dict(_pairs(cmd["m"]))
+            # a view object fetched before the wholesale assignment belongs to the replaced mapping
+            self.held.pop(("i", cmd["i"]), None)
             return None
         raise AssertionError("bad cmd %r" % (cmd,))
 
@@ -499,51 +516,51 @@ def check_case(case, max_unknown=1):
     def read_all(step, op_view):
         for v in ref.views():
             exp = ref.visible(v)
-            view = real.view(v)
-            items = list(view.items())
-            got = dict(items)
-            base = exp
-            if not _same_mapping(exp, got) or len(items) != len(got):
-                alt = corr.visible(v)
-                known = _same_mapping(alt, got) and len(items) == len(got)
-                leak = op_view is not None and not ref.inherits(v, op_view)
-                clause = "no-upward-leak" if leak else "read-is-overlay"
-                probe = set(exp) | set(got)
-                bad = sorted((k for k in probe if (k in exp) != (k in got) or (k in exp and (
-                    exp[k] != got[k] or type(exp[k]) is not type(got[k])))), key=repr)
-                if not (known and (clause, tuple(v)) in reported):
-                    fails.append({"clause": clause, "step": step, "view": v, "keys": bad,
-                                  "expected": _canon_items(sorted(exp.items(), key=repr)),
-                                  "observed": _canon_items(items)})
-                if known:
-                    reported.add((clause, tuple(v)))
-                    base = alt           # go on checking this view against the corrected reference
-                else:
+            for held, view in real.view_objects(v):
+                items = list(view.items())
+                got = dict(items)
+                base = exp
+                if not _same_mapping(exp, got) or len(items) != len(got):
+                    alt = corr.visible(v)
+                    known = _same_mapping(alt, got) and len(items) == len(got)
+                    leak = op_view is not None and not ref.inherits(v, op_view)
+                    clause = "no-upward-leak" if leak else "read-is-overlay"
+                    probe = set(exp) | set(got)
+                    bad = sorted((k for k in probe if (k in exp) != (k in got) or (k in exp and (
+                        exp[k] != got[k] or type(exp[k]) is not type(got[k])))), key=repr)
+                    if not (known and (clause, tuple(v), held) in reported):
+                        fails.append({"clause": clause, "step": step, "view": v, "keys": bad, "held_object": held,
+                                      "expected": _canon_items(sorted(exp.items(), key=repr)),
+                                      "observed": _canon_items(items)})
+                    if known:
+                        reported.add((clause, tuple(v), held))
+                        base = alt           # go on checking this view against the corrected reference
+                    else:
+                        unknown[0] += 1
+                        continue
+                # the other read methods must tell the same story as items()
+                probe = set(base) | {"<absent>"}
+                incoherent = []
+                if [k for k, _ in items] != list(view.keys()) or [x for _, x in items] != list(view.values()):
+                    incoherent.append("keys()/values() differ from items()")
+                for k in probe:
+                    if (k in view) != (k in base):
+                        incoherent.append("%r in view" % (k,))
+                    if view.get(k, TOMB) != base.get(k, TOMB):
+                        incoherent.append("get(%r)" % (k,))
+                    try:
+                        x = view[k]
+                        if k not in base or x != base[k]:
+                            incoherent.append("[%r]" % (k,))
+                    except KeyError:
+                        if k in base:
+                            incoherent.append("[%r] raised" % (k,))
+                if not (view == base) or (view != base) or bool(view) != bool(base) or view.copy() != base:
+                    incoherent.append("==/!=/bool/copy")
+                if incoherent:
                     unknown[0] += 1
-                    continue
-            # the other read methods must tell the same story as items()
-            probe = set(base) | {"<absent>"}
-            incoherent = []
-            if [k for k, _ in items] != list(view.keys()) or [x for _, x in items] != list(view.values()):
-                incoherent.append("keys()/values() differ from items()")
-            for k in probe:
-                if (k in view) != (k in base):
-                    incoherent.append("%r in view" % (k,))
-                if view.get(k, TOMB) != base.get(k, TOMB):
-                    incoherent.append("get(%r)" % (k,))
-                try:
-                    x = view[k]
-                    if k not in base or x != base[k]:
-                        incoherent.append("[%r]" % (k,))
-                except KeyError:
-                    if k in base:
-                        incoherent.append("[%r] raised" % (k,))
-            if not (view == base) or (view != base) or bool(view) != bool(base) or view.copy() != base:
-                incoherent.append("==/!=/bool/copy")
-            if incoherent:
-                unknown[0] += 1
-                fails.append({"clause": "dict-semantics-read", "step": step, "view": v, "keys": [],
-                              "expected": _canon_items(sorted(base.items(), key=repr)), "observed": incoherent[:6]})
+                    fails.append({"clause": "dict-semantics-read", "step": step, "view": v, "keys": [],
+                                  "expected": _canon_items(sorted(base.items(), key=repr)), "observed": incoherent[:6]})
 
     read_all(-1, None)
     for step, cmd in enumerate(case["cmds"]):
@@ -683,6 +700,14 @@ def gen_case(rng, tier, max_cmds=40, shared=0.0, mi=0.0):
         for _ in range(2 if rng.random() < 0.6 else 1):
             cmds.append({"t": "new", "c": c})
             sh.insts.append(c)
+    # the caller fetches some views once and keeps the objects: reads through them now (before most classes have
+    # been written through for the first time), more commands through the same objects later
+    hold_p = rng.choice([0.0, 0.15, 0.3, 0.5])
+    if hold_p:
+        for _ in range(rng.randint(1, 3)):
+            view = ["i", rng.randrange(len(sh.insts))] if sh.insts and rng.random() < 0.4 \
+                else ["c", rng.randrange(len(sh.mro))]
+            cmds.append({"t": "op", "view": view, "op": rng.choice(["items", "bool", "keys", "copy"]), "held": True})
     n_ops = rng.randint(3, max(3, max_cmds - len(cmds)))
     for _ in range(n_ops):
         r = rng.random()
@@ -712,7 +737,10 @@ def gen_case(rng, tier, max_cmds=40, shared=0.0, mi=0.0):
                 view = ["i", rng.randrange(len(sh.insts))]
             else:
                 view = ["c", rng.randrange(len(sh.mro))]
-            cmds.append(_rand_op(rng, view, nkeys, True))
+            op = _rand_op(rng, view, nkeys, True)
+            if rng.random() < hold_p:
+                op["held"] = True
+            cmds.append(op)
     return case
 
 
@@ -811,13 +839,14 @@ class C17(Property):
     assumptions = [
         "keys are str, values None/int/str (no key/value whose == or hash is user-defined; the Deleted symbol is never stored by the caller)",
         "`Cls.properties = x` (rebinding the class attribute by hand) is not an operation of the property",
-        "held view objects are not reused across a wholesale assignment to the same instance",
+        "a view object held by the caller is dropped when its instance is wholesale-assigned (it belongs to the replaced mapping)",
     ]
     rule = ("histories of <= 40 commands over a hierarchy of depth 3-5 built with named/using/validated_by/class "
             "statements/with_properties/using(properties=…), 1-3 extra siblings, 2-10 instances (pairs of instances of "
             "one class), then random interleavings of all 6 mutating and 11 reading methods through class and instance "
             "views, further derivations, instantiations (plain and properties=… override) and wholesale assignments; keys "
-            "from an alphabet of 1-10 (so collisions and re-use of deleted keys are the norm); after every command every "
+            "in 3 of 4 histories the caller also HOLDS view objects (fetched once, before most classes were first written "
+            "through) and 15-50% of the later commands and all snapshots go through the held objects; keys from an alphabet of 1-10 (so collisions and re-use of deleted keys are the norm); after every command every "
             "view is read with items() and compared with the Lean model (order included) and with the reference overlay "
             "(plus get/in/[]/==/!=/bool/copy/keys/values coherence); non-trivial = at least 3 mutating ops of 2 kinds "
             "through 2 views and a tombstone somewhere; distinct = distinct canonical case JSON")
@@ -859,6 +888,17 @@ class C17(Property):
             {"t": "using_props", "p": 0, "init": [], "wrap": False},
             {"t": "op", "view": ["c", 1], "op": "setitem", "k": "b", "v": 1},
             {"t": "mi", "bases": [1, 2], "mro": [1, 2, 0]}]})
+        # seeded mutation C17 view-frame-chain-cache: a held view object of the lowest class (and of an instance)
+        # is read, then an intermediate class that was never written gets its first write / deletion
+        out.append({"rtype": "String", "root": "using", "init": [["k", 1]], "cmds": [
+            {"t": "subclass", "p": 0, "via": "named"}, {"t": "subclass", "p": 1, "via": "class_stmt"},
+            {"t": "new", "c": 2},
+            {"t": "op", "view": ["c", 2], "op": "items", "held": True},
+            {"t": "op", "view": ["i", 0], "op": "items", "held": True},
+            {"t": "op", "view": ["c", 1], "op": "setitem", "k": "m", "v": 2},
+            {"t": "op", "view": ["c", 2], "op": "getitem", "k": "m", "held": True},
+            {"t": "op", "view": ["c", 1], "op": "delitem", "k": "k"},
+            {"t": "op", "view": ["i", 0], "op": "contains", "k": "k", "held": True}]})
         return out
 
     def exhaustive(self, tier):
@@ -868,6 +908,12 @@ class C17(Property):
         for n in range(1, depth + 1):
             for combo in itertools.product(alpha, repeat=n):
                 yield dict(base, cmds=_EXH_PREFIX + [dict(c) for c in combo])
+        # the same histories with every view fetched once beforehand and held: all later snapshots read through
+        # the held objects (length <= 2 in both tiers)
+        hold_all = [{"t": "op", "view": v, "op": "items", "held": True} for v in _EXH_VIEWS]
+        for n in range(1, 3):
+            for combo in itertools.product(alpha, repeat=n):
+                yield dict(base, cmds=_EXH_PREFIX + hold_all + [dict(c) for c in combo])
 
     def generate(self, rng, n, tier):
         for i in range(n):
@@ -916,6 +962,8 @@ class C17(Property):
         for c in cmds:
             if c["t"] == "op":
                 t.append("op=%s@%s" % (c["op"], c["view"][0]))
+                if c.get("held"):
+                    t.append("held-view@%s" % c["view"][0])
             else:
                 t.append("cmd=%s" % c["t"])
         for s in obs.get("steps", []):
@@ -933,6 +981,11 @@ class C17(Property):
         for i in range(len(cmds) - 1, -1, -1):
             c = _drop_cmd(case, i)
             if c is not None:
+                yield c
+        for i, cmd in enumerate(cmds):
+            if cmd.get("held"):
+                c = copy.deepcopy(case)
+                del c["cmds"][i]["held"]
                 yield c
         if case["init"]:
             for i in range(len(case["init"])):
